@@ -28,7 +28,15 @@ RULE = ("a case is a whole operation history on two objects a,b (plus an optiona
         "and expected histories of depth <= 2 (full alphabet) and 3/4 (core), optional<T&> and unexpected depth <= 2/3, "
         "the visit dispatcher on every size tuple in {1..4}^k, k <= 3, and every active index tuple; plus seeded random "
         "histories of depth 3..10; each case prints the state after every step, all six relations, and all observers "
-        "of the final state, and a live-instance verdict of the Tracked element type. "
+        "of the final state, and a live-instance verdict of the Tracked element type. Families added by the review: "
+        "variants with a REPEATED alternative type <Tracked,Tracked>, <Tracked,int,Tracked> and expected<Tracked,Tracked> "
+        "(index-based API only; assignment between the two occurrences), <int,double> / optional<double>|optional<float> / "
+        "unexpected<double> whose floating alternative also takes a NaN (unordered: the six relations are independent), "
+        "<int,TrivDef> (class with a trivial default constructor and user-provided copy/move); observers added: what visit "
+        "returns for a reference-returning visitor (reference kept, identity, write-through), get_if(nullptr), visit of no "
+        "variant, etl::visit with a non-variant operand, swap of two arrays of variants; compile-only API probes "
+        "(extra_checks): provided call forms must compile, recorded-missing ones (optional vs nullopt >,<=,>=; expected "
+        "assignment/swap/==) must still be ill-formed. "
         "non-trivial = distinct case line with impl outcome ok and at least one step (or a dispatcher case)")
 
 TRUSTED_BASE = ["reference leg: libstdc++ 12 std::variant / std::optional / std::expected (-std=c++2b) on the same histories",
